@@ -126,14 +126,18 @@ static struct yytbl_data *mkctbl (void)
 	flex_int32_t *tdata = 0, curr = 0;
 	int     end_of_buffer_action = num_rules + 1;
 
-	struct packtype_t *ptype = optimize_pack(tblend + 2 + 1);
+	/* The end-of-buffer state sits at the very end of the table; a scanner
+	 * that meets a real NUL in its input indexes it with the character that
+	 * follows, so leave numecs + 1 unused (all-zero) slots after it.
+	 */
+	struct packtype_t *ptype = optimize_pack(tblend + 2 + 1 + numecs + 1);
 	out_str ("m4_define([[M4_HOOK_MKCTBL_TYPE]], [[%s]])", ptype->name);
 
 	tbl = calloc(1, sizeof (struct yytbl_data));
 	yytbl_data_init (tbl, YYTD_ID_TRANSITION);
 	tbl->td_flags = YYTD_DATA32 | YYTD_STRUCT;
 	tbl->td_hilen = 0;
-	tbl->td_lolen = (flex_uint32_t) (tblend + 2 + 1);	/* number of structs */
+	tbl->td_lolen = (flex_uint32_t) (tblend + 2 + 1 + numecs + 1);	/* number of structs */
 
 	tbl->td_data = tdata =
 		calloc(tbl->td_lolen * 2, sizeof (flex_int32_t));
@@ -249,7 +253,7 @@ static void genctbl(void)
 	int     end_of_buffer_action = num_rules + 1;
 
 	/* Table of verify for transition and offset to next state. */
-	out_dec ("m4_define([[M4_HOOK_TRANSTABLE_SIZE]], [[%d]])", tblend + 2 + 1);
+	out_dec ("m4_define([[M4_HOOK_TRANSTABLE_SIZE]], [[%d]])", tblend + 2 + 1 + numecs + 1);
 	outn ("m4_define([[M4_HOOK_TRANSTABLE_BODY]], [[m4_dnl");
 
 	/* We want the transition to be represented as the offset to the
@@ -317,8 +321,14 @@ static void genctbl(void)
 	transition_struct_out (chk[tblend + 1], nxt[tblend + 1]);
 	transition_struct_out (chk[tblend + 2], nxt[tblend + 2]);
 
+	/* Room for indexing the end-of-buffer state with any character
+	 * (see mkctbl).
+	 */
+	for (i = 0; i <= numecs; ++i)
+		transition_struct_out (0, 0);
+
 	outn ("]])");
-	footprint += sizeof(struct yy_trans_info) * (tblend + 2 + 1);
+	footprint += sizeof(struct yy_trans_info) * (tblend + 2 + 1 + numecs + 1);
 
 	out_dec ("m4_define([[M4_HOOK_STARTTABLE_SIZE]], [[%d]])", lastsc * 2 + 1);
 	if (gentables) {
